@@ -88,6 +88,7 @@ def run(ctx: core.Ctx) -> int:
     w = witness.Witness(ctx)
     decl_def(ctx, w)
     vals = [witness.Valuation(ctl, cal) for ctl in (False, True) for cal in (False, True)]
+    vals += [witness.Valuation(ctl, cal, ekf=False) for ctl in (False, True) for cal in (False, True)]      # the plain Model generation
     if ctx.tier == "thorough":
         vals += [witness.Valuation(ctl, cal, False, sensors=(("a", 1), ("b", 2), ("c", 6)), n_state=7, n_control=3, n_calib=2)
                  for ctl in (False, True) for cal in (False, True)]
@@ -98,6 +99,6 @@ def run(ctx: core.Ctx) -> int:
         ctx.oblige("WITNESS", f"witness {v.tag}", f"rc={rc}", rc == 0, file=first["where"].split(":")[0], func=v.tag,
                    construct=(first["message"] + " | " + first["text"])[:200],
                    msg=f"valuation {v.tag} does not type-check: {first['where']}: {first['message']}   [{first['text']}]")
-    ctx.floor("WITNESS", len(res), 4, "witness TUs")
+    ctx.floor("WITNESS", len(res), 8, "witness TUs (filter and plain model, control x calibration)")
     return core.finish(ctx, explanation="E2 layout interpretation of the generator + iteration inventory rules, temporaries protocol, "
                                         "declaration/definition agreement and compile witnesses", **META)
